@@ -35,6 +35,9 @@ type ScalarCase struct {
 	// Again: url: values of further occurrences of OUR parameter, placed right before ours
 	// (?k=&k=abc): every occurrence is judged on its own
 	Again []string `json:"again,omitempty"`
+	// BadSrc (var carrier, with NoModel): the call hands over something Var rejects before it
+	// validates - "nil", "typednil" (a nil *T), "struct", "map" - together with its rules
+	BadSrc string `json:"badsrc,omitempty"`
 	// Lead: tag / rm carriers: fields declared BEFORE ours in the carrier struct, none with a rule:
 	// "time" (a time.Time), "unexported", "plain" (an exported string), "all" (the three)
 	Lead string `json:"lead,omitempty"`
@@ -188,6 +191,16 @@ func (c *ScalarCase) prepare() func() error {
 	switch c.Carrier {
 	case "var":
 		src := c.viaPtr(v)
+		switch c.BadSrc {
+		case "nil":
+			src = nil
+		case "typednil":
+			src = reflect.Zero(reflect.PtrTo(v.Type())).Interface()
+		case "struct":
+			src = struct{ A string }{"x"}
+		case "map":
+			src = map[string]string{"k": "v"}
+		}
 		rs := append([]string(nil), c.Rules...)
 		if len(c.CallFns) > 0 {
 			fns := append([]string(nil), c.CallFns...)
